@@ -318,3 +318,75 @@ func TestRegr_C17_mark_at_memory_floor(t *testing.T) {
 		vt.KnownFinding(t, col, "C17-floor", fails, detail)
 	}
 }
+
+// TestRegr_C12_deep_reorg_crash replays known finding C12-deepreorg with the real API only: a
+// 10024-header chain with a stale fork at height 1 is saved, the stale fork then overtakes (a
+// reorganisation deeper than the prune depth), and the process stops after the first storage write
+// of the following Clean (main header file rewritten, branch files not yet).
+func TestRegr_C12_deep_reorg_crash(t *testing.T) {
+	col := evid.For("C12", "deep", "")
+	ctx := vt.Ctx()
+	store := memstore.New()
+	cfg := &headers.Config{Network: bitcoin.MainNet, MaxBranchDepth: 144}
+	repo := headers.NewRepository(cfg, store)
+	repo.DisableDifficulty()
+	repo.InitializeWithGenesis()
+	raws := chainOf(t, repo, 101)
+	// stale fork from height 1, 25 headers
+	prev, ts := raws[1].Hash(), raws[1].Timestamp
+	var side []model.RawHeader
+	add := func(bits uint32, n uint32) {
+		raw := model.RawHeader{Version: 1, Prev: prev, Timestamp: ts + 600, Bits: bits, Nonce: 700000 + n}
+		if err := repo.ProcessHeader(ctx, toWire(&raw)); err != nil {
+			t.Fatalf("side header: %s", err)
+		}
+		side = append(side, raw)
+		prev, ts = raw.Hash(), raw.Timestamp
+	}
+	for i := 0; i < 25; i++ {
+		add(0x1d00ffff, uint32(i))
+	}
+	// continue the main chain to 10024
+	p, pts := raws[101].Hash(), raws[101].Timestamp
+	for i := 102; i <= 10024; i++ {
+		var mr model.Hash
+		mr[0], mr[1], mr[2] = byte(i), byte(i>>8), 0x43
+		raw := model.RawHeader{Version: 1, Prev: p, Timestamp: pts + 600, Bits: 0x1d00ffff, Nonce: uint32(i)}
+		raw.Merkle = mr
+		if err := repo.ProcessHeader(ctx, toWire(&raw)); err != nil {
+			t.Fatalf("main header %d: %s", i, err)
+		}
+		raws = append(raws, raw)
+		p, pts = raw.Hash(), raw.Timestamp
+	}
+	if err := repo.Save(ctx); err != nil {
+		t.Fatal(err)
+	}
+	for i := 0; i < 4; i++ {
+		add(0x1b00ffff, uint32(100+i)) // the stale fork overtakes
+	}
+	j0, snap := store.JournalLen(), store.Snapshot()
+	if err := repo.Clean(ctx); err != nil {
+		t.Fatal(err)
+	}
+	ops := store.JournalSince(j0)
+	fails, detail := false, ""
+	for k := 1; k < len(ops) && !fails; k++ {
+		img := memstore.FromSnapshot(snap, ops[:k])
+		loaded := headers.NewRepository(cfg, img)
+		loaded.DisableDifficulty()
+		if err := loaded.Load(ctx); err != nil {
+			fails, detail = true, fmt.Sprintf("crash after %d of %d writes of Clean: Load failed: %s", k, len(ops), err)
+			break
+		}
+		for h := 1; h <= 40 && h <= loaded.Height(); h++ {
+			hdr, err1 := loaded.Header(ctx, h)
+			below, err2 := loaded.Hash(ctx, h-1)
+			if err1 != nil || err2 != nil || !hdr.PrevBlock.Equal(below) {
+				fails, detail = true, fmt.Sprintf("crash after %d of %d writes of Clean: loaded chain (height %d) is not linked at height %d", k, len(ops), loaded.Height(), h)
+				break
+			}
+		}
+	}
+	vt.KnownFinding(t, col, "C12-deepreorg", fails, detail)
+}
